@@ -448,4 +448,113 @@ theorem sublist_flatMap_filter (files : List SrcFile) :
       rw [List.filter_cons_of_pos hg, List.flatMap_cons, List.flatMap_cons]
       exact List.Sublist.append (List.Sublist.refl _) ih
 
+/-! ### texts that are refused on their own -/
+
+/-- The text would be accepted by a fresh `Modules`: every name free of `@`, no header twice. -/
+def okAlone (f : SrcFile) : Bool := f.stmts.all good && decide ((f.stmts.map hdr).Nodup)
+
+theorem loadFile_eq_addText (r : Registry) (f : SrcFile) :
+    loadFile r f = match r.addText f.stmts with | .ok r' => r' | .error _ => r := rfl
+
+/-- A text that is refused on its own is refused after any loads. -/
+theorem loadFile_notOk {r : Registry} {L : List Stmt} (inv : Inv r L) (hL : ∀ t ∈ L, NoAt t.arg) {f : SrcFile}
+    (h : okAlone f = false) : loadFile r f = r := by
+  have spec := Registry.addText_spec inv hL f.stmts
+  rw [loadFile_eq_addText]
+  cases hadd : r.addText f.stmts with
+  | error e => rfl
+  | ok r' =>
+    exfalso
+    rw [hadd] at spec
+    obtain ⟨⟨h1, h2, _⟩, _⟩ := spec
+    have : okAlone f = true := by
+      unfold okAlone
+      rw [Bool.and_eq_true]
+      exact ⟨List.all_eq_true.mpr fun s hs => good_of_noAt (h1 s hs), decide_eq_true h2⟩
+    rw [h] at this
+    cases this
+
+/-- The registry after one more text still satisfies the registry invariant for some load list. -/
+theorem loadFile_inv {r : Registry} {L : List Stmt} (inv : Inv r L) (hL : ∀ t ∈ L, NoAt t.arg) (f : SrcFile) :
+    ∃ L', Inv (loadFile r f) L' ∧ ∀ t ∈ L', NoAt t.arg := by
+  have spec := Registry.addText_spec inv hL f.stmts
+  rw [loadFile_eq_addText]
+  cases hadd : r.addText f.stmts with
+  | error e => exact ⟨L, inv, hL⟩
+  | ok r' =>
+    rw [hadd] at spec
+    obtain ⟨⟨h1, _, _⟩, inv'⟩ := spec
+    refine ⟨L ++ f.stmts, inv', ?_⟩
+    intro t ht
+    rcases List.mem_append.mp ht with ht | ht
+    · exact hL t ht
+    · exact h1 t ht
+
+/-- **Texts that are refused on their own leave no trace, wherever they stand.** -/
+theorem loadFiles_filter_okAlone (files : List SrcFile) : loadFiles files = loadFiles (files.filter okAlone) := by
+  unfold loadFiles
+  have key : ∀ (fs : List SrcFile) (r : Registry) (L : List Stmt), Inv r L → (∀ t ∈ L, NoAt t.arg) →
+      fs.foldl loadFile r = (fs.filter okAlone).foldl loadFile r := by
+    intro fs
+    induction fs with
+    | nil => intro _ _ _ _; rfl
+    | cons f rest ih =>
+      intro r L inv hL
+      cases hg : okAlone f with
+      | false =>
+        rw [List.filter_cons_of_neg (by rw [hg]; exact Bool.false_ne_true), List.foldl_cons, loadFile_notOk inv hL hg]
+        exact ih r L inv hL
+      | true =>
+        rw [List.filter_cons_of_pos hg, List.foldl_cons, List.foldl_cons]
+        obtain ⟨L', inv', hL'⟩ := loadFile_inv inv hL f
+        exact ih _ L' inv' hL'
+  exact key files {} [] inv_empty (by simp)
+
+theorem noAt_filter_okAlone (files : List SrcFile) :
+    ∀ t ∈ (files.filter okAlone).flatMap (·.stmts), NoAt t.arg := by
+  intro t ht
+  obtain ⟨f, hf, htf⟩ := List.mem_flatMap.mp ht
+  have hg := (List.mem_filter.mp hf).2
+  unfold okAlone at hg
+  rw [Bool.and_eq_true] at hg
+  exact noAt_of_good (List.all_eq_true.mp hg.1 t htf)
+
+/-- `processFiles` of two permutations of one list of texts: whether the set is inside the model
+does not depend on the order; it remains to compare the dumps of the two registries. -/
+theorem processFiles_perm_of_dump (opts : Opts) {files₁ files₂ : List SrcFile} (hperm : files₁.Perm files₂)
+    (h : dumpOutcome (processAll (loadFiles files₁) opts (plugFull (loadFiles files₁))) =
+      dumpOutcome (processAll (loadFiles files₂) opts (plugFull (loadFiles files₂)))) :
+    (processFiles opts files₁).toOption.map dumpOutcome = (processFiles opts files₂).toOption.map dumpOutcome := by
+  unfold processFiles
+  cases h1 : files₁.findSome? fun f => outsideL "" f.stmts with
+  | some why =>
+    cases h2 : files₂.findSome? fun f => outsideL "" f.stmts with
+    | some why' => rfl
+    | none =>
+      exfalso
+      rw [List.findSome?_eq_none_iff] at h2
+      obtain ⟨f, hf, hw⟩ := List.exists_of_findSome?_eq_some h1
+      rw [h2 f (hperm.mem_iff.mp hf)] at hw
+      cases hw
+  | none =>
+    cases h2 : files₂.findSome? fun f => outsideL "" f.stmts with
+    | some why' =>
+      exfalso
+      rw [List.findSome?_eq_none_iff] at h1
+      obtain ⟨f, hf, hw⟩ := List.exists_of_findSome?_eq_some h2
+      rw [h1 f (hperm.mem_iff.mpr hf)] at hw
+      cases hw
+    | none =>
+      simp only [Except.toOption, Option.map_some, Option.some.injEq]
+      exact h
+
+/-! ### small permutations for the examples -/
+
+theorem perm_rev3 {α : Type} (a b c : α) : [a, b, c].Perm [c, b, a] := by
+  have := List.reverse_perm [c, b, a]
+  simpa using this
+theorem perm_rev4 {α : Type} (a b c d : α) : [a, b, c, d].Perm [d, c, b, a] := by
+  have := List.reverse_perm [d, c, b, a]
+  simpa using this
+
 end Goyang.Lemmas.LoadOrder
